@@ -225,4 +225,18 @@ example :
       ((List.range 12).map (fun i => Op.insert (Int.ofNat i) i) ++ (List.range 11).map (fun i => Op.remove (Int.ofNat i)) ++ [Op.len, Op.get 11])).map
       (fun outs => outs.length) = some 25 := by decide
 
+/-- **The second life of a map is its first.**  After `clear()` the map is, field for field (root, arenas, free
+    lists, height), the map `new(capacity)` returns; so every history that follows a `clear()` behaves — results,
+    structure, slot numbers — exactly as the same history on a fresh map of that capacity.  (Rounds 4 and 5 of the
+    seeded changes attacked this six times through `clear()` and the constructors: a root leaf with a different
+    capacity field, a root that is not slot 0, a free list with duplicates, arenas that keep their slots.  The
+    correspondence run sees each of them as a dump difference right after the `clear()`.) -/
+theorem clear_is_new (s : RState K V) (hc : minCapacity ≤ s.cap) : some (clear s) = (new s.cap : Option (RState K V)) := by
+  unfold new clear
+  have : ¬ s.cap < minCapacity := by omega
+  simp [this]
+
+theorem history_after_clear (s : RState K V) (ops : List (Op K V)) :
+    run (clear s) ops = run (freshState s.cap) ops := rfl
+
 end BPT.Props.C01
